@@ -88,7 +88,8 @@ def r_dynspelling(spec):
 
 
 def r_docs(spec):
-    return walk_fields(spec, lambda f: f.clone(doc=None if f.doc else 'documentation of %s' % f.name) if f.kind in ('basic', 'fixed', 'dyn', 'lengthof', 'checksum', 'obj') else f)
+    # the words are there on purpose: a doc string is free text, whatever keywords, type names or format verbs it mentions
+    return walk_fields(spec, lambda f: f.clone(doc=None if f.doc else 'documentation of %s (was zchar[8] left repeat match u8 100%% {{x}})' % f.name) if f.kind in ('basic', 'fixed', 'dyn', 'lengthof', 'checksum', 'obj') else f)
 
 
 SPEC_REWRITES = [('alias', r_alias), ('zchar', r_zchar), ('defaultpad', r_defaultpad), ('placement', r_placement), ('defaults', r_defaults),
@@ -143,7 +144,7 @@ def base_specs():
                                                               F('basic', 'Nums', typ='u16', repeat=True)], root=True)], opts(ArrayPrefixLenType='u8'), meta=meta))
     out.append(PSpec('c08_only_string_prefix', [Packet('Root', [F('dyn', 'Name', spelling='string'), F('dyn', 'Names', repeat=True, spelling='string'),
                                                                F('basic', 'Nums', typ='u16', repeat=True)], root=True)], opts(StringPrefixLenType='u32'), meta=meta))
-    out.append(PSpec('c08_words_in_names', [Packet('Root', [F('fixed', 'leftQty', n=8, pad=('right', "'0'")), F('fixed', 'rightSide', n=4, pad=('left', "' '")),
+    out.append(PSpec('c08_words_in_names', [Packet('Root', [F('fixed', 'leftQty', n=8, pad=('right', "'0'")), F('fixed', 'rightSide', n=4, pad=('left', "' '")), F('fixed', 'Quizchar', n=5), F('dyn', 'stringent', spelling='string'),
                                                            F('fixed', 'Qty', n=6, pad=('right', "'*'") if False else ('right', "'0'"), doc='quantity left to execute'),
                                                            F('lengthof', 'leftover', typ='u16', target='Body', spelling='inline'),
                                                            F('obj', 'Body', typ='Logout'), F('fixed', 'Tail', n=3, pad=('right', "' '"), doc='left right true false repeat match')], root=True), logout],
